@@ -165,7 +165,9 @@ class ProgGen:
       ann = r.choice(['int', 'int', 'str(SENTINEL.append(7))', 'print("ann")', 'undefined_ann_name'])
       return ['%s%s: %s = %d' % (pad, v, ann, r.below(7))]
     if k == 'print':
-      return ['%sprint(%s)' % (pad, e())]
+      # output through a bare print, through a host helper handed in with the globals, and
+      # through sys.stdout of the builtins namespace (captured output must not depend on the route)
+      return ['%s%s(%s)' % (pad, r.choice(['print', 'print', 'EMIT', 'print']), e())]
     if k == 'pass':
       return [pad + 'pass']
     if k == 'assert':
@@ -297,7 +299,7 @@ STMT_SLOTS = [
     'match 1:\n  case 1:\n  <S2>', 'async def f():\n<S>', 'def f():\n  def g():\n  <S2>\n  g()\nf()',
     'class A:\n  def m(self):\n  <S2>\nA().m()', 'if 1:\n  if 1:\n  <S2>',
 ]
-INNER_EXPR = ['len("a")', '(lambda: 1)', '(w := 1)', 'NESTED()']
+INNER_EXPR = ['len("a")', '(lambda: 1)', '(w := 1)', 'NESTED()', 'EMIT("h")']
 INNER_STMT = ['x = 1', 'x = 1\nx += 1', 'x: int = 1', '(x := 1)', 'if 1:\n  pass', 'match 1:\n  case _:\n    pass',
               'for i in []:\n  pass', 'while 0:\n  pass', 'len("a")', 'try:\n  pass\nexcept ValueError:\n  pass',
               'try:\n  pass\nexcept* ValueError:\n  pass', 'assert True', 'raise ValueError()', 'class B:\n  pass',
@@ -563,6 +565,10 @@ class C19(Prop):
       reached.append('eval')
       return real_eval(*a, **k)
 
+    def emit(x):
+      # a host helper that writes to the process's stdout (not the program's own bare print)
+      sys.stdout.write('%s\n' % (x,))
+
     def nested():
       # a program whose run-time error is itself a CodeError (raised by a nested evaluation on its
       # line 2): the outer error must carry THAT error as its cause and the OUTER position
@@ -583,7 +589,7 @@ class C19(Prop):
         builtins.exec, builtins.eval, builtins.compile = exec_w, eval_w, compile_w
         try:
           entry = case.get('entry', 'evaluate')
-          gv = {'SENTINEL': sentinel, 'CTX': contextlib.nullcontext, 'NESTED': nested}
+          gv = {'SENTINEL': sentinel, 'CTX': contextlib.nullcontext, 'NESTED': nested, 'EMIT': emit}
           if entry == 'evaluate':
             out = coding.evaluate(code, global_vars=gv, permission=perm(case['explicit']),
                                   outputs_intermediate=True)
@@ -611,7 +617,7 @@ class C19(Prop):
       result = {'outcome': 'runs'}
     ref = None
     if case.get('tree') is not None:
-      ref = reference_run(code, {'NESTED': nested})
+      ref = reference_run(code, {'NESTED': nested, 'EMIT': emit})
     return {'model': {'result': result, 'slot_inside': slot_inside, 'slot_after': slot_after},
             'obs': obs, 'ref': ref}
 
